@@ -1,10 +1,11 @@
 --------------------------- MODULE FormatTraceC07 ---------------------------
-(* C07: every recorded RPC codec exchange is judged by RpcCodec!C07Why.    *)
+(* C07: every recorded RPC codec exchange is judged by RpcCodec!C07Why, or *)
+(* by RpcCodec!JsonWhy for the JSON-RPC codec.                            *)
 EXTENDS TraceKit, FiniteSets
 RC == INSTANCE RpcCodec
 VARIABLES l, poss, cur, failed, skip
 NoInit(e) == {0}
 NoStep(s, e) == {s}
-Judge(e) == RC!C07Why(e)
+Judge(e) == RC!C07Judge(e)
 INSTANCE TraceLoop WITH InitStates <- NoInit, Step <- NoStep, One <- Judge
 =============================================================================
